@@ -4,23 +4,32 @@
   About `Gen.PosScalar.Pos_hash_full_result_seq`, `Gen.PosAvx2.Pos_hash_full_result`,
   `Gen.PosAvx512.Pos_hash_full_result_avx512` (regenerated from poseidon_goldilocks.cpp and its headers, the 22 partial
   rounds as a fold over a lifted loop body) and the constant tables of `Gen.PosConsts` (regenerated from
-  poseidon_goldilocks_constants.hpp).
+  poseidon_goldilocks_constants.hpp).  The specification is `PoseidonSpec.permutation` (Model/PoseidonSpec.lean): over
+  F = ZMod p, 4 full rounds, 22 partial rounds, 4 full rounds with the x^7 S-box and `den` of the library's tables.
 
-  PROVED HERE (for all inputs / all table rows, kernel-checked):
+  PROVED HERE (for ALL 64-bit contents of the input and output buffers, kernel-checked):
+    * `C06_seq_eq_spec`, `C06_avx2_eq_spec`: the twelve output words denote `permutation (den ∘ input)`; no word beyond the
+      twelve is written;
+    * `C06_avx512_eq_spec`: on 24 words in the interleaved layout [a0..3 b0..3 a4..7 b4..7 a8..11 b8..11] both states are
+      mapped by `permutation`; no word beyond the 24 is written;
+    * `C06_backends_agree`: the three backends return the same twelve field elements;
+    * `C06_hash_eq_spec`: the capacity-sized hashes (hash_seq, hash, hash_avx512) are the first four elements of the spec;
     * the capacity-sized hash is the first four elements of the full result, in all three backends;
     * the table side conditions the vector backends rely on: every round constant is canonical (needed by
       add_avx_b_small / add_avx512_b_c, C02/C11), every entry of M_ is below 2^8 (needed by the _8 kernels, C13/C14),
       M_ and P_ are the transposes of M and P (so that mmult_avx(_8) computes what mvp_ computes), S is large enough for
       every index the partial rounds use (23·21+22 < 507).
-  NOT YET PROVED (full statements, see DESIGN.md §4 C06): den ∘ seq = spec ∘ den, den ∘ avx2 = spec ∘ den and, per
-  interleaved state, den ∘ avx512 = spec ∘ den for all 2^768 states.  These three equalities are currently established by
-  the correspondence run only (every generated model is executed against the compiled function AND against an independent
-  reference permutation on boundary-valued states); the lane-level ingredients are theorems (C01, C02, C11, C13, C14).
+  Proof structure: Lemmas/PosSpecL.lean (normal forms of the spec, loop induction), PosScalarF.lean, PosTables.lean,
+  PosAvx2F.lean, PosAvx512F.lean (one lemma per translated helper in the field view, the partial-round invariant
+  "state[0] lives in the scalar, lane 0 of st0 is dead", then composition).
 -/
 import GoldilocksVerif.Gen.PosScalar
 import GoldilocksVerif.Gen.PosAvx2
 import GoldilocksVerif.Gen.PosAvx512
 import GoldilocksVerif.Lemmas.ScalarNat
+import GoldilocksVerif.Lemmas.PosScalarF
+import GoldilocksVerif.Lemmas.PosAvx2F
+import GoldilocksVerif.Lemmas.PosAvx512F
 
 namespace GoldilocksVerif.C06
 open GoldilocksVerif Gen.PosConsts
@@ -68,5 +77,87 @@ theorem C06_tables_transposed_partial :
 theorem C06_table_indices_in_range_partial :
     23 * 21 + 11 + 11 < c_Pos_S_list.length ∧ 60 + 21 < c_Pos_C_list.length ∧ 106 + 11 < c_Pos_C_list.length := by
   decide +kernel
+
+
+/-! ### the three backends compute the specified permutation -/
+
+/-- scalar backend: for every output buffer and every 12-word input (any representation), the twelve result words denote
+    the specified permutation of the denoted input state; words beyond the twelve are untouched -/
+theorem C06_seq_eq_spec (state input : Region) :
+    (∀ i : Fin 12, den ((Gen.PosScalar.Pos_hash_full_result_seq state input) i.val) =
+      PoseidonSpec.permutation (fun j => den (input j.val)) i) ∧
+    (∀ i, 12 ≤ i → (Gen.PosScalar.Pos_hash_full_result_seq state input) i = state i) :=
+  ⟨fun i => congrFun (seq_spec state input).1 i, (seq_spec state input).2⟩
+
+/-- AVX2 backend: same statement -/
+theorem C06_avx2_eq_spec (state input : Region) :
+    (∀ i : Fin 12, den ((Gen.PosAvx2.Pos_hash_full_result state input) i.val) =
+      PoseidonSpec.permutation (fun j => den (input j.val)) i) ∧
+    (∀ i, 12 ≤ i → (Gen.PosAvx2.Pos_hash_full_result state input) i = state i) :=
+  ⟨fun i => congrFun (avx2_spec state input).1 i, (avx2_spec state input).2⟩
+
+/-- AVX512 backend, two states in the interleaved layout [a0..3 b0..3 a4..7 b4..7 a8..11 b8..11]: element k of state A is
+    word 8·(k/4) + k%4, of state B word 8·(k/4) + 4 + k%4; both states are mapped by the specified permutation; words beyond
+    the 24 are untouched -/
+theorem C06_avx512_eq_spec (state input : Region) :
+    (∀ i : Fin 12, den ((Gen.PosAvx512.Pos_hash_full_result_avx512 state input) (8 * (i.val / 4) + i.val % 4)) =
+      PoseidonSpec.permutation (fun j => den (input (8 * (j.val / 4) + j.val % 4))) i) ∧
+    (∀ i : Fin 12, den ((Gen.PosAvx512.Pos_hash_full_result_avx512 state input) (8 * (i.val / 4) + 4 + i.val % 4)) =
+      PoseidonSpec.permutation (fun j => den (input (8 * (j.val / 4) + 4 + j.val % 4))) i) ∧
+    (∀ i, 24 ≤ i → (Gen.PosAvx512.Pos_hash_full_result_avx512 state input) i = state i) :=
+  ⟨fun i => congrFun (avx512_spec state input).1 i, fun i => congrFun (avx512_spec state input).2.1 i,
+    (avx512_spec state input).2.2⟩
+
+/-- the three backends return the same twelve field elements: scalar = AVX2 on every input, and each of the two
+    interleaved AVX512 states = scalar on the de-interleaved input -/
+theorem C06_backends_agree (s1 s2 s3 input a b in2 : Region)
+    (hA : ∀ j : Fin 12, in2 (8 * (j.val / 4) + j.val % 4) = a j.val)
+    (hB : ∀ j : Fin 12, in2 (8 * (j.val / 4) + 4 + j.val % 4) = b j.val) :
+    (∀ i : Fin 12, den ((Gen.PosScalar.Pos_hash_full_result_seq s1 input) i.val) =
+      den ((Gen.PosAvx2.Pos_hash_full_result s2 input) i.val)) ∧
+    (∀ i : Fin 12, den ((Gen.PosAvx512.Pos_hash_full_result_avx512 s3 in2) (8 * (i.val / 4) + i.val % 4)) =
+      den ((Gen.PosScalar.Pos_hash_full_result_seq s1 a) i.val)) ∧
+    (∀ i : Fin 12, den ((Gen.PosAvx512.Pos_hash_full_result_avx512 s3 in2) (8 * (i.val / 4) + 4 + i.val % 4)) =
+      den ((Gen.PosScalar.Pos_hash_full_result_seq s1 b) i.val)) := by
+  refine ⟨fun i => ?_, fun i => ?_, fun i => ?_⟩
+  · rw [(C06_seq_eq_spec s1 input).1 i, (C06_avx2_eq_spec s2 input).1 i]
+  · rw [(C06_avx512_eq_spec s3 in2).1 i, (C06_seq_eq_spec s1 a).1 i]
+    have : (fun j : Fin 12 => den (in2 (8 * (j.val / 4) + j.val % 4))) = (fun j : Fin 12 => den (a j.val)) := by
+      funext j; rw [hA j]
+    rw [this]
+  · rw [(C06_avx512_eq_spec s3 in2).2.1 i, (C06_seq_eq_spec s1 b).1 i]
+    have : (fun j : Fin 12 => den (in2 (8 * (j.val / 4) + 4 + j.val % 4))) = (fun j : Fin 12 => den (b j.val)) := by
+      funext j; rw [hB j]
+    rw [this]
+
+/-- the capacity-sized hashes are the first four elements of the specified permutation: hash_seq and hash on a 12-word
+    input, hash_avx512 (eight output words: four per state) on two interleaved inputs -/
+theorem C06_hash_eq_spec (state input : Region) :
+    (∀ i : Fin 4, den ((Gen.PosScalar.Pos_hash_seq state input) i.val) =
+      PoseidonSpec.permutation (fun j => den (input j.val)) ⟨i.val, by omega⟩) ∧
+    (∀ i : Fin 4, den ((Gen.PosAvx2.Pos_hash state input) i.val) =
+      PoseidonSpec.permutation (fun j => den (input j.val)) ⟨i.val, by omega⟩) ∧
+    (∀ i : Fin 4, den ((Gen.PosAvx512.Pos_hash_avx512 state input) i.val) =
+      PoseidonSpec.permutation (fun j => den (input (8 * (j.val / 4) + j.val % 4))) ⟨i.val, by omega⟩) ∧
+    (∀ i : Fin 4, den ((Gen.PosAvx512.Pos_hash_avx512 state input) (4 + i.val)) =
+      PoseidonSpec.permutation (fun j => den (input (8 * (j.val / 4) + 4 + j.val % 4))) ⟨i.val, by omega⟩) := by
+  obtain ⟨h1, _, h2, _, h3, _⟩ := C06_hash_is_first_four_partial state input
+  refine ⟨fun i => ?_, fun i => ?_, fun i => ?_, fun i => ?_⟩
+  · have := (C06_seq_eq_spec Region.zero input).1 ⟨i.val, by omega⟩
+    simp only at this
+    rw [h1 i.val i.isLt, this]
+  · have := (C06_avx2_eq_spec Region.zero input).1 ⟨i.val, by omega⟩
+    simp only at this
+    rw [h2 i.val i.isLt, this]
+  · rw [h3 i.val (by omega)]
+    have := (C06_avx512_eq_spec Region.zero input).1 ⟨i.val, by omega⟩
+    have e : 8 * (i.val / 4) + i.val % 4 = i.val := by omega
+    simp only [e] at this
+    rw [this]
+  · rw [h3 (4 + i.val) (by omega)]
+    have := (C06_avx512_eq_spec Region.zero input).2.1 ⟨i.val, by omega⟩
+    have e : 8 * (i.val / 4) + 4 + i.val % 4 = 4 + i.val := by omega
+    simp only [e] at this
+    rw [this]
 
 end GoldilocksVerif.C06
